@@ -270,7 +270,8 @@ type GenOpts struct {
 var longTail = strings.Repeat("abcdefghij", 15) + ".dat"
 
 var nameStems = []string{"f%d.dat", "data%d.bin", "sub/f%d", "sub/deep/er/f%d.x", "with space %d.txt", "UPPER%d.DAT", "d%d/file", "a-%d_b.c.d", "v1..%d.dat", "rel..%d/data.bin", "wait...%d", "win\\f%d.dat", "a\\..\\b%d", "trail%d ", "dot%d.", "n%d", "abcdefg%d", "report[%d].txt", "q%d?.dat", "star*%d.bin", "long%d-" + longTail}
-var par1Stems = []string{"f%d.dat", "data%d.bin", "with space %d.txt", "héllo%d.txt", "日本%d", "\U0001F600%d.bin", "UPPER%d.DAT", "clip%d-\U0001F600", "%d\U00010348\U0001F4BE", "x%dé", "v1..%d.dat", "wait...%d", "..%d", "dot%d.", "report[%d].txt", "long%d-" + longTail}
+var par1Stems = []string{"f%d.dat", "data%d.bin", "with space %d.txt", "héllo%d.txt", "日本%d", "\U0001F600%d.bin", "UPPER%d.DAT", "clip%d-\U0001F600", "%d\U00010348\U0001F4BE", "x%dé", "v1..%d.dat", "wait...%d", "..%d", "dot%d.", "report[%d].txt", "long%d-" + longTail, "\ufeff%d.txt", "%d\ufeffmid.bin", "\u200b%d", "\ufffd%d"}
+
 // (the last ones contain an archive extension or a volume-like part
 // inside the name)
 var baseNames = []string{"set", "my set", "archive.v1", "x", "Set-2_b", "backup.part1", "x.par2", "a.vol01+02", "old.p01.new"}
@@ -1063,4 +1064,60 @@ func caseTwin(name string) string {
 		}
 	}
 	return dir + string(b)
+}
+
+// forgeCRCAt rewrites b[at:at+4] so that the CRC-32 (IEEE) of the whole
+// of b becomes want. (The CRC of the tail after the forged bytes is an
+// invertible affine function of the CRC before it: invert it by
+// Gaussian elimination over GF(2), then forge the prefix.)
+func forgeCRCAt(b []byte, at int, want uint32) bool {
+	if at < 0 || at+4 > len(b) {
+		return false
+	}
+	tail := b[at+4:]
+	f := func(c uint32) uint32 { return crc32.Update(c, crc32.IEEETable, tail) }
+	k := f(0)
+	var rows [32]uint64 // row i: bit i of (M*c); augmented with the target bit at position 32
+	tgt := want ^ k
+	for col := 0; col < 32; col++ {
+		v := f(1<<uint(col)) ^ k
+		for i := 0; i < 32; i++ {
+			if v&(1<<uint(i)) != 0 {
+				rows[i] |= 1 << uint(col)
+			}
+		}
+	}
+	for i := 0; i < 32; i++ {
+		if tgt&(1<<uint(i)) != 0 {
+			rows[i] |= 1 << 32
+		}
+	}
+	// Gauss-Jordan
+	for col, rank := 0, 0; col < 32; col++ {
+		piv := -1
+		for i := rank; i < 32; i++ {
+			if rows[i]&(1<<uint(col)) != 0 {
+				piv = i
+				break
+			}
+		}
+		if piv < 0 {
+			return false
+		}
+		rows[rank], rows[piv] = rows[piv], rows[rank]
+		for i := 0; i < 32; i++ {
+			if i != rank && rows[i]&(1<<uint(col)) != 0 {
+				rows[i] ^= rows[rank]
+			}
+		}
+		rank++
+	}
+	var c uint32
+	for i := 0; i < 32; i++ {
+		if rows[i]&(1<<32) != 0 {
+			c |= 1 << uint(i)
+		}
+	}
+	forgeCRC(b[:at+4], c)
+	return crc32.ChecksumIEEE(b) == want
 }
